@@ -340,6 +340,79 @@ func blockLevelInputs(work string, must bool) []Input {
 	return ins
 }
 
+// headerInputs: single-bit flips of the fixed-size metadata fields and hostile block counters, on the multi-day base 3
+// (containment: the other days return exactly their flows, the damaged day is skipped and counted).
+// must: every single-bit flip of the 64-bit block counter of the middle day, its top three bits on the other days, and
+// the counter values k + m*2^61, 2^61, 2^62, 2^63, 2^64-1 (a product with the per-block size 88 = 11*8 wraps for them).
+// !must: every single-bit flip of every byte of version, totals, current offsets, initial timestamp and of the first and
+// last per-block records (descriptors of every column, traffic entries).
+func headerInputs(work string, must bool) []Input {
+	var ins []Input
+	b, err := buildBase(3, work)
+	if err != nil {
+		fatal(err)
+	}
+	tf, tl := day0-1000, day0+3*epochDay+1000
+	flip := func(meta []byte, pos int, bit uint) []byte {
+		y := append([]byte(nil), meta...)
+		y[pos] ^= 1 << bit
+		return y
+	}
+	for d := 0; d < 3; d++ {
+		meta := readFile(b, d, ".blockmeta")
+		n := len(b.Days[d].Blocks)
+		add := func(class string, y []byte) {
+			ins = append(ins, Input{Base: 3, TFirst: tf, TLast: tl, Attrs: 15, Class: class, Day: d, Block: -1, Ops: []Op{wr(b, d, ".blockmeta", y)}})
+		}
+		if must {
+			for pos := 8; pos < 16; pos++ {
+				for bit := uint(0); bit < 8; bit++ {
+					if d == 1 || (pos == 8 && bit >= 5) {
+						add("meta-nblocks-bitflip", flip(meta, pos, bit))
+					}
+				}
+			}
+			if d == 1 {
+				k := uint64(n)
+				for _, v := range []uint64{k + 1<<61, k + 2<<61, k + 3<<61, k + 7<<61, 1 << 61, 1 << 62, 1 << 63, 1<<64 - 1, (k - 1) + 1<<61, 1 + 1<<63} {
+					add("meta-nblocks-wrap", put64(meta, 8, v))
+				}
+			}
+			continue
+		}
+		var positions []int
+		for pos := 0; pos < 72; pos++ {
+			if pos < 8 || pos >= 16 {
+				positions = append(positions, pos)
+			}
+		}
+		for col := 0; col < 8; col++ {
+			for i := 0; i < 8; i++ {
+				positions = append(positions, 72+col*(8+9*n)+i) // current offset of the column
+			}
+			for _, blk := range []int{0, n - 1} {
+				for i := 0; i < 9; i++ {
+					positions = append(positions, descPos(n, col, blk)+i)
+				}
+			}
+		}
+		for i := 0; i < 8; i++ {
+			positions = append(positions, tsPos(n)+i)
+		}
+		for _, blk := range []int{0, n - 1} {
+			for i := 0; i < 16; i++ {
+				positions = append(positions, trafPos(n, blk)+i)
+			}
+		}
+		for _, pos := range positions {
+			for bit := uint(0); bit < 8; bit++ {
+				add("meta-header-bitflip", flip(meta, pos, bit))
+			}
+		}
+	}
+	return ins
+}
+
 // fixed boundary cases (the first cases of every run)
 func fixedInputs(work string) []Input {
 	var ins []Input
@@ -1115,11 +1188,12 @@ func getPlan(o vhlib.Opts) []Input {
 	}
 	r := vhlib.NewRand(o.Seed ^ 0xc06)
 	fixed := append(fixedInputs(o.Work), blockLevelInputs(o.Work, false)...)
+	fixed = append(fixed, headerInputs(o.Work, false)...)
 	var p []Input
 	mustN := 0
 	// quick: a seed-dependent third of the fixed boundary list (all of it in thorough / search), then random mutants
 	seen := map[string]bool{}
-	for _, in := range blockLevelInputs(o.Work, true) {
+	for _, in := range append(headerInputs(o.Work, true), blockLevelInputs(o.Work, true)...) {
 		raw, _ := json.Marshal(in)
 		if !seen[string(raw)] {
 			seen[string(raw)] = true
@@ -1127,12 +1201,17 @@ func getPlan(o vhlib.Opts) []Input {
 		}
 	}
 	mustN = len(p)
+	// quick: a seed-dependent slice of the fixed list, spread over all of its classes (every stride-th entry)
+	stride := uint64(4)
+	if room := o.N*2/3 - mustN; room > 0 && uint64(len(fixed)/room+1) > stride {
+		stride = uint64(len(fixed)/room + 1)
+	}
 	for i, in := range fixed {
 		raw, _ := json.Marshal(in)
 		if seen[string(raw)] {
 			continue
 		}
-		if o.Tier == "thorough" || o.Search || (uint64(i)+o.Seed)%4 == 0 || in.Class == "none" {
+		if o.Tier == "thorough" || o.Search || (uint64(i)+o.Seed)%stride == 0 || in.Class == "none" {
 			seen[string(raw)] = true
 			p = append(p, in)
 		}
